@@ -10,6 +10,7 @@ PROP = {
              "Unit TestCrossFlowWalk: a host flow that incorporates a guard flow (1-3 request Filters with conditional exits and an optional answering processor, 1-2 response Filters) in front of its own 1-2 request Filters "
              "(optional answering processor) and behind its own 1-2 response Filters; in one case of three (hosts without an answering processor) 1-2 further connections leave 'flow Guard at end' for processors of their own - a fan-out directly behind the reference, whose branches run in the order written; non-trivial: the request path crosses from the guard into the host, or is answered"),
     "assumptions": [
+        "cross-flow unit: in one case of three the host's response direction runs over the same processor keys as its request direction (same order, connections of its own): the two graphs stay apart; both graph units count a generated configuration that the loader refuses (none on the pinned tree) and go on - the unit is inconclusive if refusals exceed a tenth of the cases",
         "every case is built and run at a generated log level (off, error, debug, trace; output discarded): at an enabled level the log statements of the loader and the engine format their arguments, which is code that runs on the flow graph",
         "MockProcessor is unusable (its loader conditions never match its runtime output); Limiter/Queue are covered by C01/C06",
         "fan-out (two connections with the same condition) upstream of an answering processor is accepted under either reading (the answer stops the whole walk / only its branch)",
